@@ -359,10 +359,14 @@ pub fn run(tier: &str, seed: u64, outdir: &str) {
                     }
                 };
                 // CredentialRequest::new through the prover API (cred def object is the real one; its id is the offer's)
+                // (for ids the offer constructor accepts, an offer naming that id is made from the same key proof)
                 let new_ok = if cd == cred_def_id {
                     Some(prover::create_credential_request(e, d, &cred_def, &ls, "ls", &offer).is_ok())
                 } else {
-                    None
+                    match CredentialDefinitionId::new(cd).ok().and_then(|cid| issuer::create_credential_offer(SchemaId::new(schema_id).unwrap(), cid, &kcp).ok()) {
+                        Some(offer2) => Some(prover::create_credential_request(e, d, &cred_def, &ls, "ls", &offer2).is_ok()),
+                        None => None,
+                    }
                 };
                 let id = out.next_id();
                 let line = format!(
